@@ -13,6 +13,7 @@ SPEC = "OrmSessionExt"
 def consts(c, dev, depth):
     cs = B.consts(c.get("objs", 2), 1, depth, c.get("eoc", True), c["acts"], dev, vals=c.get("vals", (0, 1)))
     cs["Protos"] = "{" + ", ".join(str(p) for p in c.get("protos", (2,))) + "}"
+    cs["SrcKeys"] = "{" + ", ".join(str(p) for p in c.get("srckeys", (1, 2))) + "}"
     return cs
 
 
@@ -34,6 +35,12 @@ def run_ext(chk, pid, P):
     nontrivial=fn(from_state, act))"""
     from checks.ormsessionext_driver import DriverX
     rng = random.Random(chk.seed)
+    # TLC jobs of this run all use the specs as they are now (a later edit of specs/ must not reach a running check)
+    import shutil
+    snap = os.path.join(chk.work, "specsnap")
+    if not os.path.isdir(snap):
+        shutil.copytree(tlc.SPECS, snap)
+    tlc.SPECS = snap
     dev_real = B.probe_deviations(chk.work) & set(B.DEV_ALL)
     tot = dict(states=0, transitions=0, edges=0, walks=0, steps=0, random_walks=0, tlc_runs=0, nontrivial=0, deep_states=0, deep_transitions=0)
     cov, samples, plans = {}, [], {}
